@@ -5,6 +5,7 @@ pub mod c04;
 pub mod c05;
 pub mod c06;
 pub mod c07;
+pub mod c08;
 pub mod c09;
 pub mod c10;
 pub mod c11;
@@ -26,6 +27,7 @@ pub fn dispatch(env: &Env) -> i32 {
         "C05" => c05::run(env),
         "C06" => c06::run(env),
         "C07" => c07::run(env),
+        "C08" => c08::run(env),
         "C09" => c09::run(env),
         "C10" => c10::run(env),
         "C11" => c11::run(env),
